@@ -2,6 +2,7 @@ package j5schema
 
 import (
 	"fmt"
+	"slices"
 	"strings"
 
 	"github.com/pentops/j5/gen/j5/schema/v1/schema_j5pb"
@@ -198,13 +199,22 @@ func (s *ObjectSchema) ToJ5Object() *schema_j5pb.Object {
 }
 
 func (s *ObjectSchema) ClientProperties() []*ObjectProperty {
+	return s.clientProperties(nil)
+}
+
+// clientProperties lifts the properties of flattened fields into s. flattening
+// holds the schemas being flattened on the way here: a field that would flatten
+// one of them again (a message flattening a field of its own type) is left as an
+// ordinary object property, the expansion would never end.
+func (s *ObjectSchema) clientProperties(flattening []*ObjectSchema) []*ObjectProperty {
+	flattening = append(flattening, s)
 	properties := make([]*ObjectProperty, 0, len(s.Properties))
 	for _, prop := range s.Properties {
 		switch propType := prop.Schema.(type) {
 		case *ObjectField:
-			if propType.Flatten {
+			if propType.Flatten && !slices.Contains(flattening, propType.Schema()) {
 
-				children := propType.Schema().ClientProperties()
+				children := propType.Schema().clientProperties(flattening)
 				for _, child := range children {
 					child := child.nestedClone(prop.ProtoField)
 					properties = append(properties, child)
